@@ -43,7 +43,8 @@ def sq_euclidean(a, b):
 def has_variance(pattern):
     c = remove_pattern_mean(pattern)
     ss = sum(v * v for v in c)
-    return ss > 1e-18 * (1.0 + sum(v * v for v in pattern))
+    # purely relative (no absolute floor): patterns of any magnitude are treated alike
+    return ss > 1e-18 * sum(v * v for v in pattern)
 
 
 def pearson_distance(a, b):
